@@ -256,8 +256,13 @@ other("C19", "trace contracts (orchestration mode: file and raster operations un
       "save_results hands every product of a dataset to write_data_array under the file of that name, with THAT dataset's crs / "
       "transform, the validity masks as uint16, the confidence bands under their indicator names, the right products exactly when "
       "the right dataset is not empty (62 obligations over the 6 paths); save_config serialises the configuration it is given, as "
-      "it is (no key sorting: the pipeline is an ordered mapping), into cfg/config.json.  What the rasters then contain "
-      "(write_data_array, rasterio), the JSON round trip and the replay of the saved configuration through the command line:")
+      "it is (no key sorting: the pipeline is an ordered mapping), into cfg/config.json.  write_data_array is proved (value "
+      "mode, loop invariant over the bands) to leave in the file exactly the array: band k of the file is plane k of a (row, col, "
+      "band) DataArray -- or the 2-D array itself -- and the file has the array's size; the raster is an uninterpreted writer "
+      "(write(a, k) stores a as band k: assumed).  The JSON round trip, GeoTIFF encoding and the replay of the saved configuration "
+      "through the command line:",
+      trusted=["assumed: a rasterio writer opened with count/height/width holds count bands of that size and write(a, k) replaces band k "
+               "by a (the array having the file's size and k within the count are obligations)"])
 other("C20", "margin tables of every step class decided exhaustively (@tables), Margins descriptors and the margins getters of "
       "the matching-cost / filter classes proved (value contracts), glue contracts on the <step>_check_conf callbacks (each step "
       "records its margins exactly once under its own name); the global margins of whole pipelines:")
